@@ -2,6 +2,7 @@ import EV.Props.C01
 import EV.Props.C02
 import EV.Props.C11
 import EV.Props.C12
+import EV.Props.C15
 import EV.Props.C16
 import EV.Props.C18
 import EV.Props.C19
